@@ -262,7 +262,10 @@ pub fn typed_decode_agrees(text: &str, v: &V, full: bool) -> Verdict {
             outs.push(("from_value::<T>", guarded(|| serde_json::from_value::<$T>(tree.clone()).map(|x| wrap(x)).map_err(|e| e.to_string()))));
             if full {
             outs.push(("from_str::<Option<T>>", guarded(|| serde_json::from_str::<Option<$T>>(text).map_err(|e| e.to_string()).and_then(|x| x.map(|x| wrap(x)).ok_or_else(|| "None".to_string())))));
+            // (the extra list level must stay inside serde_json's recursion limit of 128)
+            if u::json_depth(v) < 120 {
             outs.push(("from_str::<Vec<T>>", guarded(|| serde_json::from_str::<Vec<$T>>(&listed).map_err(|e| e.to_string()).and_then(|mut x| if x.len() == 1 { Ok(wrap(x.remove(0))) } else { Err(format!("{} elements", x.len())) }))));
+            }
             outs.push(("from_slice::<T>", guarded(|| serde_json::from_slice::<$T>(text.as_bytes()).map(|x| wrap(x)).map_err(|e| e.to_string()))));
             outs.push(("from_reader::<T>", guarded(|| serde_json::from_reader::<_, $T>(std::io::Cursor::new(text.as_bytes())).map(|x| wrap(x)).map_err(|e| e.to_string()))));
             }
